@@ -131,7 +131,11 @@ def judge_call(st, dt, sg, dg, any_inputs, cache, pairs, shift, weak, init, r=No
     """returns (violations, world-or-None-if-consumed, raised?)"""
     own = r is None
     if r is None:
-        r = make_world(st, dt, sg, dg, any_inputs, cache)
+        try:
+            r = make_world(st, dt, sg, dg, any_inputs, cache)
+        except Exception as e:  # noqa: BLE001
+            return [dict(prop="C11", kind="cannot-start-valid-simulators", cls=None,
+                         msg=f"{type(e).__name__}: {str(e)[:200]}")], False, False
     before = snapshot(r.world)
     res = do_connect(r, pairs, shift, weak, init)
     after = snapshot(r.world)
@@ -192,7 +196,15 @@ def _work(combo):
                     calls.append(([good, (sa, da)], shift, False, False))
     for pairs, shift, weak, init in calls:
         if r is None:
-            r = make_world(st, dt, sg, dg, any_inputs, cache)
+            try:
+                r = make_world(st, dt, sg, dg, any_inputs, cache)
+            except Exception as e:  # noqa: BLE001
+                case = dict(st=st, dt=dt, sg=sg, dg=dg, any_inputs=any_inputs, cache=cache,
+                            pairs=[], shift=0, weak=False, init=False)
+                return dict(n=1, raised=0, viol=[dict(
+                    prop="C11", kind="cannot-start-valid-simulators", cls=None, case=case,
+                    msg=f"starting the two (valid) simulators failed with {type(e).__name__}: "
+                        f"{str(e)[:200]}: {case}")])
         try:
             v, consumed, did_raise = judge_call(st, dt, sg, dg, any_inputs, cache, pairs, shift,
                                                 weak, init, r)
